@@ -73,8 +73,8 @@ CHECKS = {
         "level": "exploration",
         "rule": "a store with 3-6 committed versions, then ONE writer goroutine (script of Set/Remove/SaveVersion [wrapped in SetCommitting/UnsetCommitting with async pruning]/DeleteVersionsTo of versions nobody reads/pin=open Exporter/unpin) and 1-4 reader goroutines (scripts of GetImmutable(v | latest at that moment) - or, in a third of the steps, the handle kept from the reader's previous step - followed by Get, Has, GetWithIndex, full Iterator, GetProof verified against the reference root, full Export compared with the reference post-order), cache 0/2/1000, fast index on/off, sync/async pruning, flush threshold default/150/300/1000 (small values split one commit or deletion over several physical writes). (a) TestC06Plan: a generated PLAN owns the schedule at named points - every storage call seen by the seam and the verif yield points SaveVersion:afterCommit / deleteVersionsTo:before|afterVersion: 'park thread T at the n-th occurrence of event E until thread U has completed m more steps (or has seen event E2 k times)', incl. the gated pattern 'reader starts when the writer has reached E and the writer stays parked there until the reader has done k steps'; a directive that cannot be honoured within 250 ms (e.g. T holds the nodeDB lock U needs) releases and the case is labelled unscheduled, never failed. (b) TestC06Stress: the same scripts on the real scheduler under the Go race detector (GOMAXPROCS 16 and 2) with drawn micro-pauses at storage calls. Oracle: every reader result equals the precomputed model of that version; proofs verify against reference roots; a prune covering a version pinned by an open Exporter errors (sync) / is not carried out (async); after the run every readable version and the writer's working tree are re-read completely; any race report is a violation. non-trivial (a) = >=1 reader step completed while the writer was parked inside a commit or prune; (b) = >=2 readers",
         "assumptions": _ASSUME + ["Go race detector", "schedules are sampled, and controlled only at storage-call / tagged-yield granularity; no claim of schedule coverage"],
-        "quick": [{"test": "TestC06Plan", "checks": 90, "shards": 6}, {"test": "TestC06Stress", "checks": 150, "shards": 3, "race": True, "env": {"GORACE": "halt_on_error=0"}},
-                  {"test": "TestC06Stress", "checks": 100, "shards": 1, "race": True, "env": {"GORACE": "halt_on_error=0", "VERIF_GOMAXPROCS": "2"}}],
+        "quick": [{"test": "TestC06Plan", "checks": 300, "shards": 6}, {"test": "TestC06Stress", "checks": 400, "shards": 4, "race": True, "env": {"GORACE": "halt_on_error=0"}},
+                  {"test": "TestC06Stress", "checks": 250, "shards": 2, "race": True, "env": {"GORACE": "halt_on_error=0", "VERIF_GOMAXPROCS": "2"}}],
         "thorough": [{"test": "TestC06Plan", "checks": 3000, "shards": 10}, {"test": "TestC06Stress", "checks": 12000, "shards": 4, "race": True, "env": {"GORACE": "halt_on_error=0"}},
                      {"test": "TestC06Stress", "checks": 6000, "shards": 2, "race": True, "env": {"GORACE": "halt_on_error=0", "VERIF_GOMAXPROCS": "2"}}],
     },
